@@ -298,7 +298,7 @@ Proof.
                   dirty_ok g (l_session l) (l_serial l) (N.max m (nf_serial nf)) ci a ->
                   (nf_session nf = l_session l \/ ci = l_content l) ->
                   inv24 g (hw_after hw st) (Some (with_content l ci))).
-        { intros ci Hsi Hdi [Hse|->].
+        { intros ci Hsi Hdi [Hse| ->].
           - exists a, (N.max m (nf_serial nf)). cbn [with_content l_session l_serial l_content].
             repeat split; try assumption; [lia|].
             right. unfold hw_after. rewrite En. cbn [hw_lookup]. rewrite Hse, N.eqb_refl.
